@@ -1,36 +1,48 @@
-"""C16: packet framing (Packetizer / Depacketizer / PacketFIFO / Arbiter / Dispatcher).
-G-mode exhaustive products at reduced parameters + T-mode recorded simulations at realistic widths."""
-import random
+"""C16: packet framing (Packetizer / Depacketizer / PacketFIFO / Arbiter / Dispatcher of
+litex/soc/interconnect/packet.py).
 
+G-mode: exhaustive products Env x contract monitor x real netlist graph at reduced parameters
+        (specs/packet/Packet{Frame,Fifo,Route}Graph.tla), all valid/ready schedules.
+T-mode: ordinary Migen simulations with random stalls at realistic widths (32/64/128 bit, the repository
+        test's 31-byte header and a few more), judged by the same contracts (Packet*Trace.tla).
+The work is split into independent lanes that run in parallel child processes (each lane = a list of G-mode
+batches or the T-mode run); the parent merges their reports in lane order, so the result is deterministic."""
+import functools
+import json
+import multiprocessing as mp
+import multiprocessing.connection
+import os
+import random
+import time
+import traceback
+
+from .. import gcheck
 from ..gcheck import GFamily, run_batches
 from ..graphloop import GraphLoop
 from .. import tracecheck
-from ..report import MachineryError
+from ..report import Report, MachineryError, ROOT
 from ..families import packet as fam
 
 FACTORY = "harness.families.packet:make"
 
 FRAME_INVS = ["DefsWellFormed", "Causal", "ByteLayout", "LastPlacement", "HeaderFields", "ValidHold", "Bounded"]
-FRAME_PROPS = ["Progress", "ProgressSink", "NothingLost"]
-FRAME_T = ["DefsWellFormedT", "CausalT", "ByteLayoutT", "LastPlacementT", "HeaderFieldsT", "ValidHoldT", "BoundedT",
-           "BoundedProgress", "BoundedProgressSink", "BoundedDelivery"]
+FRAME_PROPS = ["Liveness"]     # = Progress /\ ProgressSink /\ NothingLost
+FRAME_T = [k + "T" for k in FRAME_INVS] + ["BoundedProgress", "BoundedProgressSink", "BoundedDelivery"]
 FRAME = GFamily("packet/PacketFrameGraph", "packet/PacketFrameTrace", FACTORY, hint=fam.FrameHint(),
                 clause_map=dict([(k, k + "T") for k in FRAME_INVS] +
-                                [("Progress", "BoundedProgress"), ("ProgressSink", "BoundedProgressSink"),
-                                 ("NothingLost", "BoundedDelivery")]),
+                                [("Liveness", "BoundedLiveness")]),
                 describe=fam.describe)
 
 FIFO_INVS = ["OnlyCompletePackets", "InOrder", "ParamOfPacket", "ValidHold", "Bounded"]
-FIFO_PROPS = ["Progress", "ProgressSink", "NothingLost"]
+FIFO_PROPS = ["Liveness"]      # = Progress /\ ProgressSink /\ NothingLost
 FIFO_T = [k + "T" for k in FIFO_INVS] + ["BoundedProgress", "BoundedProgressSink", "BoundedDelivery"]
 FIFO = GFamily("packet/PacketFifoGraph", "packet/PacketFifoTrace", FACTORY, hint=fam.FifoHint(),
                clause_map=dict([(k, k + "T") for k in FIFO_INVS] +
-                               [("Progress", "BoundedProgress"), ("ProgressSink", "BoundedProgressSink"),
-                                ("NothingLost", "BoundedDelivery")]),
+                               [("Liveness", "BoundedLiveness")]),
                describe=fam.describe)
 
 ROUTE_INVS = ["BeatsInOrder", "SelLatchedOnFirst", "Atomic", "ValidHold", "Bounded", "ExactlyOnce", "BoundedWait"]
-ROUTE_PROPS = ["Served", "Delivered"]
+ROUTE_PROPS = ["Served"]      # Delivered follows from Bounded for cap = 0 (all DUTs here are combinational)
 ROUTE_T = [k + "T" for k in ROUTE_INVS] + ["BoundedService", "BoundedDelivery"]
 ROUTE = GFamily("packet/PacketRouteGraph", "packet/PacketRouteTrace", FACTORY, hint=fam.RouteHint(),
                 clause_map=dict([(k, k + "T") for k in ROUTE_INVS] +
@@ -40,33 +52,553 @@ ROUTE = GFamily("packet/PacketRouteGraph", "packet/PacketRouteTrace", FACTORY, h
 FAMS = {"frame": (FRAME, FRAME_INVS, FRAME_PROPS, FRAME_T), "fifo": (FIFO, FIFO_INVS, FIFO_PROPS, FIFO_T),
         "route": (ROUTE, ROUTE_INVS, ROUTE_PROPS, ROUTE_T)}
 
+NOTES_FINDINGS = os.path.join(ROOT, "notes", "C16_findings.json")
+
 
 def _pairs(specs):
     return [(s, fam.tla_cfg(s)) for s in specs]
 
 
-def _batches(pairs, size):
-    return [pairs[i:i + size] for i in range(0, len(pairs), size)]
+# ============================================================================================ T-mode
+def _bytes(x, n):
+    return [(x >> (8 * i)) & 0xff for i in range(n)]
 
 
-def run_gmode(report, name, specs, tier, batch=8, **kw):
-    family, invs, props, _ = FAMS[name]
-    stats = run_batches(family, report, _batches(_pairs(specs), batch), invs, props, **kw)
-    report.add(duts_explored=len(stats), per_dut=stats)
-    report.add(**{"clauses_" + name: invs + props})
-    return stats
+def _limbs16(x, n):
+    return [(x >> (16 * i)) & 0xffff for i in range(n)]
+
+
+def _plen(rnd, lo, hi):
+    r = rnd.random()
+    if r < 0.35:
+        return lo
+    if r < 0.6:
+        return min(hi, lo + 1)
+    return rnd.randint(lo, hi)
+
+
+def sim_frame(spec, ncycles, rnd, pvalid, pready):
+    """ordinary Migen simulation (run_simulation with a generator) of the real Packetizer / Depacketizer /
+    both at a realistic width with random stalls; logs one normalised event <<iv, o>> per cycle."""
+    from litex.gen.sim.core import run_simulation
+    top, sink, source = fam.frame_endpoints(spec)
+    flds = fam.sorted_fields(spec)
+    names = [f[0] for f in flds]
+    widths = [f[3] for f in flds]
+    kind = {"Packetizer": "pk", "Depacketizer": "dp", "RoundTrip": "rt"}[spec["cls"]]
+    dw, hl = spec["dw"], spec["hl"]
+    bpc = dw // 8
+    minlen, maxlen, bubbles = spec["minlen"], spec["maxlen"], spec["bubbles"]
+    ev = []
+
+    def fl(vals):
+        return [_bytes(v, (w + 7) // 8) for v, w in zip(vals, widths)]
+
+    def new_packet():
+        n = _plen(rnd, minlen, maxlen)
+        if kind == "dp":
+            m = (hl + n * bpc + bpc - 1) // bpc
+            return [(rnd.getrandbits(dw), int(i == m - 1), []) for i in range(m)]
+        f = [rnd.getrandbits(w) for w in widths]
+        return [(rnd.getrandbits(dw), int(i == n - 1), f) for i in range(n)]
+
+    def gen():
+        pkt, idx = None, 0
+        cur = None                  # beat currently offered
+        prev = None                 # beat accepted last (inside the current packet)
+        in_f = kind != "dp"
+        out_f = kind != "pk"
+        for cyc in range(ncycles):
+            v = (yield sink.valid)
+            d = (yield sink.data)
+            l = (yield sink.last)
+            r = (yield source.ready)
+            f = []
+            if in_f:
+                for n in names:
+                    f.append((yield getattr(sink, n)))
+            sr = (yield sink.ready)
+            ov = (yield source.valid)
+            od = (yield source.data)
+            ol = (yield source.last)
+            of = []
+            if out_f:
+                for n in names:
+                    of.append((yield getattr(source, n)))
+            if cyc > 0:
+                ev.append([[v, _bytes(d, bpc), l, fl(f) if in_f else [], r],
+                           [sr, ov, _bytes(od, bpc), ol, fl(of) if out_f else []]])
+            if cur is not None and v == 1 and sr == 1:
+                prev = cur
+                cur = None
+                idx += 1
+                if idx == len(pkt):
+                    pkt, prev = None, None
+            if cur is None:
+                inside = pkt is not None
+                if (bubbles == 0 and inside) or rnd.random() < pvalid:
+                    if pkt is None:
+                        pkt, idx = new_packet(), 0
+                    cur = pkt[idx]
+            if cur is not None:
+                nv, nd, nl, nf = 1, cur[0], cur[1], cur[2]
+            elif pkt is not None and bubbles == 2:
+                nv, nd, nl, nf = 0, prev[0], 0, prev[2]          # pause, payload kept on the bus
+            else:
+                nv, nd, nl = 0, rnd.getrandbits(dw), (rnd.randint(0, 1) if spec["junk"] else 0)    # payload is a don't-care
+                nf = [rnd.getrandbits(w) for w in widths] if in_f else []
+            yield sink.valid.eq(nv)
+            yield sink.data.eq(nd)
+            yield sink.last.eq(nl)
+            if in_f:
+                for n, x in zip(names, nf):
+                    yield getattr(sink, n).eq(x)
+            yield source.ready.eq(1 if rnd.random() < pready else 0)
+            yield
+    run_simulation(top, gen())
+    return ev
+
+
+def sim_fifo(spec, ncycles, rnd, pvalid, pready):
+    from litex.gen.sim.core import run_simulation
+    top, ins, outs = fam.make(spec)
+    sink, source = top.core.sink, top.core.source
+    dw = spec["dw"]
+    nl16 = (dw + 15) // 16
+    credit = spec.get("credit", 0)
+    ev = []
+
+    def gen():
+        pkt, idx, cur = None, 0, None
+        occ = 0
+        for cyc in range(ncycles):
+            vals = []
+            for s_ in ins:
+                vals.append((yield s_))
+            o = []
+            for e in outs:
+                o.append((yield e))
+            if cyc > 0:
+                ev.append([[vals[0], _limbs16(vals[1], nl16), vals[2], vals[3], vals[4]],
+                           [o[0], o[1], _limbs16(o[2], nl16), o[3], o[4]]])
+            if o[1] == 1 and vals[4] == 1:
+                occ -= 1
+            if cur is not None and vals[0] == 1 and o[0] == 1:
+                occ += 1
+                cur = None
+                idx += 1
+                if idx == len(pkt):
+                    pkt = None
+            if cur is None and (credit == 0 or occ < credit) and rnd.random() < pvalid:
+                if pkt is None:
+                    n = _plen(rnd, spec.get("minlen", 1), spec["maxlen"])
+                    p = rnd.getrandbits(spec["pw"])
+                    pkt, idx = [(rnd.getrandbits(dw), int(i == n - 1), p) for i in range(n)], 0
+                cur = pkt[idx]
+            nv = [1, cur[0], cur[1], cur[2]] if cur is not None else [0, rnd.getrandbits(dw), rnd.randint(0, 1), rnd.getrandbits(spec["pw"])]
+            nv.append(1 if (spec.get("rdy1") or rnd.random() < pready) else 0)
+            for s_, x in zip(ins, nv):
+                yield s_.eq(x)
+            yield
+    run_simulation(top, gen())
+    return ev
+
+
+def sim_route(spec, ncycles, rnd, pvalid, pready):
+    from litex.gen.sim.core import run_simulation
+    top, ins, outs = fam.make(spec)
+    n, m, dw = spec["n"], spec["m"], spec["dw"]
+    nl16 = (dw + 15) // 16
+    cfg = fam.route_cfg(spec, flat=0)
+    selvals = cfg["sels"] + cfg["badsels"]
+    ev = []
+
+    def norm_i(v):
+        out = []
+        for i in range(n):
+            out += [v[4 * i], _limbs16(v[4 * i + 1], nl16), v[4 * i + 2], v[4 * i + 3]]
+        return out + list(v[4 * n:])
+
+    def norm_o(o):
+        out = list(o[:n])
+        for j in range(m):
+            b = n + 4 * j
+            out += [o[b], _limbs16(o[b + 1], nl16), o[b + 2], o[b + 3]]
+        return out
+
+    def gen():
+        pkt = [None] * n
+        idx = [0] * n
+        cur = [None] * n
+        sel = selvals[0]
+        for cyc in range(ncycles):
+            vals = []
+            for s_ in ins:
+                vals.append((yield s_))
+            o = []
+            for e in outs:
+                o.append((yield e))
+            if cyc > 0:
+                ev.append([norm_i(vals), norm_o(o)])
+            hold_sel = False
+            nv = []
+            for i in range(n):
+                if cur[i] is not None and vals[4 * i] == 1 and o[i] == 1:
+                    cur[i] = None
+                    idx[i] += 1
+                    if idx[i] == len(pkt[i]):
+                        pkt[i] = None
+                if cur[i] is None and rnd.random() < pvalid:
+                    if pkt[i] is None:
+                        k = _plen(rnd, spec.get("minlen", 1), spec["maxlen"])
+                        p = rnd.getrandbits(spec["pw"])
+                        # the low bits of the data name the master: beats of different masters are distinguishable
+                        pkt[i], idx[i] = [((rnd.getrandbits(dw - 2) << 2) | i, int(b == k - 1), p) for b in range(k)], 0
+                    cur[i] = pkt[i][idx[i]]
+                if cur[i] is not None:
+                    nv += [1, cur[i][0], cur[i][1], cur[i][2]]
+                    if idx[i] == 0 and len(cfg["sels"]) > 1:
+                        # sel belongs to the offer of a first beat: steady while that beat waits
+                        hold_sel = hold_sel or (vals[4 * i] == 1 and vals[4 * i + 1:4 * i + 4] == list(cur[i]))
+                else:
+                    nv += [0, (rnd.getrandbits(dw - 2) << 2) | i, rnd.randint(0, 1), rnd.getrandbits(spec["pw"])]
+            if not hold_sel and rnd.random() < 0.5:
+                sel = rnd.choice(selvals)
+            nv.append(sel)
+            nv += [1 if rnd.random() < pready else 0 for _ in range(m)]
+            for s_, x in zip(ins, nv):
+                yield s_.eq(x)
+            yield
+    run_simulation(top, gen())
+    return ev
+
+
+SIMS = {"frame": sim_frame, "fifo": sim_fifo, "route": sim_route}
+
+REPO_FIELDS = [("field_8b", 0, 0, 8), ("field_16b", 1, 0, 16), ("field_32b", 3, 0, 32), ("field_64b", 7, 0, 64),
+               ("field_128b", 15, 0, 128)]           # test/test_packet.py
+ETH_LIKE = [("dst", 0, 0, 48), ("src", 6, 0, 48), ("etype", 12, 0, 16)]
+BITS8 = [("a", 0, 0, 4), ("b", 0, 4, 4), ("c", 1, 0, 16), ("d", 3, 0, 1), ("e", 3, 1, 7), ("f", 4, 0, 32)]
+ODD12 = [("a", 0, 0, 4), ("b", 0, 4, 12), ("c", 2, 0, 32)]
+
+
+def tmode_specs(tier):
+    """realistic-width configurations for trace validation; the environment classes are those of the G-mode lists"""
+    L = []
+
+    def frame(cls, dw, hl, fields, swap, **env):
+        s = fam._frame(cls, dw, hl, fields, swap, **env)
+        L.append(s)
+    general = dict(minlen=1, maxlen=24, bubbles=1, junk=1)
+    clean = dict(minlen=2, maxlen=24, bubbles=0, junk=1)
+    keep = dict(minlen=2, maxlen=24, bubbles=2, junk=1)
+    pause = dict(minlen=2, maxlen=24, bubbles=1, junk=0)         # exposes the recorded pause finding
+    onebeat = dict(minlen=1, maxlen=3, bubbles=0, junk=0)        # exposes the recorded one-beat finding
+    widths = [8, 32, 64, 128] if tier == "thorough" else [32, 64, 128]
+    for dw in widths:
+        geom = fam.geometry(dw, 31)
+        for cls in ("Packetizer", "Depacketizer", "RoundTrip"):
+            if geom == "aligned" or cls == "Depacketizer":
+                frame(cls, dw, 31, REPO_FIELDS, 1, **general)
+            else:
+                frame(cls, dw, 31, REPO_FIELDS, 1, **clean)
+                frame(cls, dw, 31, REPO_FIELDS, 1, **keep)
+                if cls == "RoundTrip" or tier == "thorough":
+                    frame(cls, dw, 31, REPO_FIELDS, 1, **pause)
+                    if dw != 64 or tier == "thorough":
+                        frame(cls, dw, 31, REPO_FIELDS, 1, **onebeat)
+    for cls in ("Packetizer", "Depacketizer", "RoundTrip"):
+        frame(cls, 32, 8, BITS8, 0, **general)                          # aligned, bit fields, no byte swap
+        frame(cls, 64, 8, BITS8, 1, **general)                          # header = exactly one word
+        if cls == "Depacketizer":
+            frame(cls, 32, 14, ETH_LIKE, 1, **general)                  # 14 bytes on 32 bit: leftover 2
+            frame(cls, 64, 14, ETH_LIKE, 1, **general)                  # leftover 6
+        else:
+            frame(cls, 32, 14, ETH_LIKE, 1, **clean)
+            frame(cls, 64, 14, ETH_LIKE, 1, **keep)
+    if tier == "thorough":
+        for cls in ("Packetizer", "Depacketizer", "RoundTrip"):
+            frame(cls, 128, 16, ETH_LIKE, 1, **general)
+            frame(cls, 32, 6, ODD12, 0, **(general if cls == "Depacketizer" else clean))
+        frame("RoundTrip", 32, 8, ODD12, 1, **general)                  # odd-width field with byte swap (finding)
+    # PacketFIFO
+    L.append({"fam": "fifo", "cls": "PacketFIFO", "dw": 32, "pw": 16, "depth": 16, "minlen": 1, "maxlen": 8, "credit": 16,
+              "env": "credit"})
+    L.append({"fam": "fifo", "cls": "PacketFIFO", "dw": 64, "pw": 8, "depth": 64, "minlen": 1, "maxlen": 24, "credit": 64,
+              "buffered": True, "env": "credit"})
+    L.append({"fam": "fifo", "cls": "PacketFIFO", "dw": 32, "pw": 16, "depth": 8, "minlen": 1, "maxlen": 8, "env": "full"})
+    # Arbiter / Dispatcher
+    L.append({"fam": "route", "cls": "Arbiter", "n": 4, "m": 1, "dw": 32, "pw": 8, "maxlen": 6})
+    L.append({"fam": "route", "cls": "Arbiter", "n": 2, "m": 1, "dw": 64, "pw": 8, "maxlen": 12})
+    L.append({"fam": "route", "cls": "Dispatcher", "n": 1, "m": 4, "dw": 32, "pw": 8, "maxlen": 6})
+    L.append({"fam": "route", "cls": "Dispatcher", "n": 1, "m": 3, "dw": 64, "pw": 8, "maxlen": 6, "one_hot": True, "nbad": 2})
+    return L
+
+
+def _tcfg(spec):
+    cfg = fam.tla_cfg(spec, flat=0)
+    if spec["fam"] == "frame":
+        cfg["stallbound"] = 96
+    elif spec["fam"] == "fifo":
+        cfg["stallbound"] = spec["depth"] + spec["maxlen"] + 16
+        cfg["cap"] = cfg["cap"] + 2
+    else:
+        cfg["stallbound"] = 600
+    return cfg
+
+
+def _tseed(seed, i, k):
+    return "c16-%d-%d-%d" % (seed, i, k)
+
+
+def _sim_job(job):
+    from .. import py312_tracer
+    py312_tracer.install()
+    return _one_trace(*job)
+
+
+def _one_trace(spec, seedstr, ncyc):
+    rnd = random.Random(seedstr)
+    pv, pr = rnd.choice([(0.9, 0.9), (0.5, 0.5), (0.9, 0.3), (0.3, 0.9), (1.0, 1.0), (1.0, 0.6)])
+    return SIMS[spec["fam"]](spec, ncyc, rnd, pv, pr)
+
+
+def run_tmode(report, tier, seed):
+    ntr = 2 if tier == "quick" else 10
+    ncyc = 300 if tier == "quick" else 1200
+    per = {"frame": ([], []), "fifo": ([], []), "route": ([], [])}
+    jobs = [(spec, _tseed(seed, i, k), ncyc) for i, spec in enumerate(tmode_specs(tier)) for k in range(ntr)]
+    pool = mp.get_context("fork").Pool(6)
+    try:
+        evs = pool.map(_sim_job, jobs, chunksize=1)        # order of `jobs` is kept: deterministic
+    finally:
+        pool.terminate()
+    for (spec, ss, nc), ev in zip(jobs, evs):
+        per[spec["fam"]][0].append({"cfg": _tcfg(spec), "ev": ev})
+        per[spec["fam"]][1].append((spec, ss, nc))
+    for name in ("frame", "fifo", "route"):
+        family, _, _, tinv = FAMS[name]
+        traces, meta = per[name]
+        fails, st = tracecheck.validate(family.trace_module, traces, tinv, workers=4)   # big JSON constant: few workers
+        report.add(traces_validated_against_impl=len(traces), trace_states=st["states"])
+        report.sample({"tmode_trace_head": {"dut": fam.describe(meta[0][0]), "first_cycles": traces[0]["ev"][:4]}}, cap=12)
+        seen = set()
+        # after the first rejected cycle of a trace the monitor is out of step with the DUT: only the first
+        # failing clause of every trace is a verdict
+        first = {}
+        for f in fails:
+            if f["tid"] not in first or (f["l"], tinv.index(f["clause"])) < (first[f["tid"]]["l"], tinv.index(first[f["tid"]]["clause"])):
+                first[f["tid"]] = f
+        for tid in sorted(first):
+            f = first[tid]
+            spec, ss, nc = meta[f["tid"]]
+            key = (json.dumps(spec, sort_keys=True), f["clause"])
+            if key in seen:
+                continue
+            seen.add(key)
+            tr = traces[f["tid"]]
+            report.violation({"dut": spec, "clause": f["clause"]},
+                             {"mode": "T", "family": name, "spec": spec, "cfg": tr["cfg"], "simseed": ss, "ncycles": nc,
+                              "trace_module": family.trace_module, "trace_invariants": tinv,
+                              "observed": tr["ev"][max(0, f["l"] - 40):f["l"]], "clause": f["clause"], "cycle": f["l"]},
+                             "%s violated by %s in a recorded simulation trace at cycle %s" % (
+                                 f["clause"], fam.describe(spec), f["l"]))
+
+
+# ============================================================================================ canary
+def run_canary(report):
+    """the premise 'a packet fits the payload depth' is needed: packets of 4 beats block a PacketFIFO of depth 2 by
+    construction.  The check must see that (ProgressSink fails); otherwise it has lost its sensitivity."""
+    spec = {"fam": "fifo", "cls": "PacketFIFO", "dw": 8, "pw": 1, "depth": 2, "minlen": 4, "maxlen": 4, "env": "canary"}
+    gl = GraphLoop(FIFO.graph_module, FACTORY, [(spec, fam.tla_cfg(spec))], invariants=[], properties=["ProgressSink"],
+                   hint=FIFO.hint, spec_name="Spec", workers=4, log=lambda m: None, heap="4g")
+    try:
+        res = gl.run()
+    finally:
+        gl.close()
+    if res.violated != "temporal":
+        raise MachineryError("canary: a PacketFIFO(depth 2) fed with 4-beat packets was not seen to block")
+    report.add(canaries=["PacketFIFO(depth=2) with 4-beat packets blocks: ProgressSink fails as it must "
+                         "(lasso of %d states)" % len(res.trace)],
+               states=res.distinct, transitions=res.generated)
+
+
+# ============================================================================================ lanes
+def _lane_main(conn, prop, tier, seed, label, job, findings):
+    try:
+        from .. import py312_tracer
+        py312_tracer.install()
+        # smaller worker pools per lane: several lanes run side by side
+        gcheck.GraphLoop = functools.partial(GraphLoop, workers=4)
+        rep = Report(prop, "%s-%s" % (tier, label), seed)
+        rep.findings = findings
+        log = lambda m: print("[%s] %s" % (label, m), flush=True)      # noqa
+        kind = job[0]
+        if kind == "g":
+            _, name, batches, kw = job
+            family, invs, props, _ = FAMS[name]
+            stats = run_batches(family, rep, batches, invs, props, log=log, heap="6g", **kw)
+            rep.add(duts_explored=len(stats), per_dut=stats)
+        elif kind == "t":
+            run_tmode(rep, tier, seed)
+        elif kind == "canary":
+            run_canary(rep)
+        conn.send({"cov": rep.cov, "violations": rep.violations, "known_hit": rep.known_hit, "notes": rep.notes})
+    except MachineryError as ex:
+        conn.send({"error": "[%s] %s" % (label, ex)})
+    except Exception:
+        conn.send({"error": "[%s] %s" % (label, traceback.format_exc()[-3000:])})
+    finally:
+        conn.close()
+
+
+def run_lanes(report, prop, tier, seed, lanes, par=6):
+    """lanes: list of (label, job).  Runs them in child processes, at most `par` at a time, merges in list order."""
+    ctx = mp.get_context("fork")
+    pending = list(enumerate(lanes))
+    running = {}
+    results = {}
+    while pending or running:
+        while pending and len(running) < par:
+            i, (label, job) = pending.pop(0)
+            pc, cc = ctx.Pipe(duplex=False)
+            p = ctx.Process(target=_lane_main, args=(cc, prop, tier, seed, label, job, report.findings))
+            p.start()
+            cc.close()
+            running[i] = (p, pc, label, time.time())
+        done = mp.connection.wait([x[1] for x in running.values()], timeout=5)
+        for i in list(running):
+            p, pc, label, t0 = running[i]
+            if pc in done:
+                print("lane %s finished after %.0fs" % (label, time.time() - t0), flush=True)
+                try:
+                    results[i] = pc.recv()
+                except EOFError:
+                    results[i] = {"error": "[%s] lane died without a result" % label}
+                p.join()
+                del running[i]
+    errors = []
+    for i in range(len(lanes)):
+        r = results[i]
+        if "error" in r:
+            errors.append(r["error"])
+            continue
+        cov = r["cov"]
+        for s_ in cov.pop("samples", []):
+            report.sample(s_, cap=16)
+        report.add(**cov)
+        report.violations.extend(r["violations"])
+        for k in r["known_hit"]:
+            if k not in report.known_hit:
+                report.known_hit.append(k)
+        report.notes.extend(r["notes"])
+    if errors:
+        raise MachineryError(" || ".join(errors))
+
+
+def _known(report):
+    """findings of this property: known_findings.json (loaded by Report) plus, until the main agent has merged
+    them, the entries of notes/C16_findings.json (same format; de-duplicated by id)"""
+    have = {f.get("id") for f in report.findings}
+    try:
+        with open(NOTES_FINDINGS) as f:
+            for e in json.load(f):
+                if e.get("property") == report.prop and e.get("id") not in have:
+                    report.findings.append(e)
+    except FileNotFoundError:
+        pass
+
+
+def expected_to_fail(spec):
+    """environment classes in which a recorded defect of the unchanged tree shows (run as one-DUT batches so that a
+    confirmed finding does not restart the exploration of the other DUTs)"""
+    if spec["fam"] == "frame":
+        if spec["geom"] == "short":
+            return True
+        if spec["geom"] == "unaligned" and spec["cls"] != "Depacketizer" and (spec["bubbles"] == 1 or spec["minlen"] == 1):
+            return True
+        if spec.get("oddwide") and spec["swap"] and spec["cls"] != "Packetizer":
+            return True
+    if spec["fam"] == "fifo" and spec.get("env") == "full":
+        return True
+    return False
+
+
+def build_lanes(tier):
+    lanes = []
+    followup = {"followup": tier == "thorough"}
+    quick = tier == "quick"
+    frames = fam.frame_configs(tier)
+    ok = [s for s in frames if not expected_to_fail(s)]
+    bad = [s for s in frames if expected_to_fail(s)]
+    if quick:
+        lanes.append(("frame", ("g", "frame", [_pairs(ok)], followup)))
+    else:
+        ok_al = [s for s in ok if s["geom"] == "aligned"]
+        ok_un = [s for s in ok if s["geom"] != "aligned"]
+        for k in range(0, len(ok_al), 14):
+            lanes.append(("frame-aligned-%d" % (k // 14), ("g", "frame", [_pairs(ok_al[k:k + 14])], followup)))
+        for k in range(0, len(ok_un), 14):
+            lanes.append(("frame-unaligned-%d" % (k // 14), ("g", "frame", [_pairs(ok_un[k:k + 14])], followup)))
+    nb = 2 if quick else 4
+    for k in range(nb):
+        part = bad[k::nb]
+        if part:
+            lanes.append(("frame-findings-%d" % k, ("g", "frame", [_pairs([s]) for s in part], followup)))
+    fifos = fam.fifo_configs(tier)
+    okf = [s for s in fifos if not expected_to_fail(s)]
+    badf = [s for s in fifos if expected_to_fail(s)]
+    big = [s for s in okf if s["depth"] >= 4]
+    small = [s for s in okf if s["depth"] < 4]
+    d3 = [s for s in small if s["depth"] == 3]
+    d2 = [s for s in small if s["depth"] < 3]
+    lanes.append(("fifo-d2", ("g", "fifo", [_pairs(d2)], followup)))
+    for k in range(0, len(d3), 2):
+        lanes.append(("fifo-d3-%d" % (k // 2), ("g", "fifo", [_pairs(d3[k:k + 2])], followup)))
+    for k, s in enumerate(big):
+        lanes.append(("fifo-big-%d" % k, ("g", "fifo", [_pairs([s])], dict(followup, spec_budget=400000, total_budget=3000000))))
+    lanes.append(("fifo-findings", ("g", "fifo", [_pairs([s]) for s in badf], followup)))
+    routes = fam.route_configs(tier)
+    heavy = [s for s in routes if s["n"] >= 3 or s["m"] >= 4]
+    light = [s for s in routes if s not in heavy]
+    lanes.append(("route", ("g", "route", [_pairs(light)], followup)))
+    for k, s in enumerate(heavy):
+        lanes.append(("route-%s%dx%d-%d" % (s["cls"][0], s["n"], s["m"], k), ("g", "route", [_pairs([s])], followup)))
+    lanes.append(("tmode", ("t",)))
+    lanes.append(("canary", ("canary",)))
+    return lanes
 
 
 def run(prop, report, tier, seed):
     report.assume("producers keep valid, payload and params steady until accepted and keep the params of a packet "
                   "constant; consumers drive ready freely; while valid = 0 the payload is a don't-care (driven 0 or junk)")
     report.assume("exhaustive G-mode at reduced parameters (data width 8/16/32 with position-tagged payload bytes, "
-                  "headers of 1..7 bytes with 1-2 fields, packets of 1..3 beats, 1-4 masters/slaves); realistic widths "
-                  "(32/64/128 bit, the repository test's 31-byte header) only sampled in T-mode")
+                  "headers of 1..7 bytes with 1-2 fields, packets of 1..3 beats, FIFO depth 2..4, 1-4 masters/slaves); "
+                  "realistic widths (32/64/128 bit, the repository test's 31-byte header) only sampled in T-mode")
     report.assume("Dispatcher: sel is part of the offer of a packet's first beat (steady until that beat is accepted), "
                   "free at all other times")
+    report.assume("PacketFIFO progress: every packet fits the payload depth (a longer packet blocks by construction; canary)")
     report.assume("FHDL netlist semantics = litex/gen/sim/core.py (compiled stepper cross-checked against it)")
-    run_gmode(report, "frame", fam.frame_configs(tier), tier)
-    run_gmode(report, "fifo", fam.fifo_configs(tier), tier)
-    run_gmode(report, "route", fam.route_configs(tier), tier)
+    _known(report)
+    lanes = build_lanes(tier)
+    # long lanes first
+    order = {"fifo-big": 0, "route-A": 1, "fifo-d3": 2, "tmode": 3, "frame": 4, "route": 5, "fifo": 6}
+    lanes.sort(key=lambda x: min([v for k, v in order.items() if x[0].startswith(k)] or [9]))
+    run_lanes(report, prop, tier, seed, lanes)
+    report.add(lanes=[l for l, _ in lanes])
+    report.add(clauses={"frame": FRAME_INVS + FRAME_PROPS, "fifo": FIFO_INVS + FIFO_PROPS, "route": ROUTE_INVS + ROUTE_PROPS})
     report.cov["exhaustive"] = True
+
+
+# ============================================================================================ replay
+def replay(path):
+    with open(path) as f:
+        r = json.load(f)
+    if r.get("mode") != "T":
+        return gcheck.replay_file(path)
+    ev = _one_trace(r["spec"], r["simseed"], r["ncycles"])
+    try:
+        fails, _ = tracecheck.validate(r["trace_module"], [{"cfg": r["cfg"], "ev": ev}], r["trace_invariants"])
+    except MachineryError as ex:
+        return False, [{"clause": "trace not judged: %s" % ex}]
+    return any(f["clause"] == r["clause"] for f in fails), fails
